@@ -16,7 +16,7 @@ if git apply --check $SRC/patch.diff 2>/dev/null; then
   git apply $SRC/patch.diff
   timeout 1500 cargo test --offline --test zz_seeded_demo >/tmp/wt/confirm_with.log 2>&1 && demo_with=pass || demo_with=fail
   if [ $# -gt 0 ]; then
-    timeout 2400 cargo test --offline --lib -- "$@" >/tmp/wt/confirm_lib.log 2>&1 && lib_with=pass || lib_with=fail
+    timeout 2400 cargo test --offline --lib -- "$@" --skip performance >/tmp/wt/confirm_lib.log 2>&1 && lib_with=pass || lib_with=fail
     libsum=$(grep "^test result" /tmp/wt/confirm_lib.log | head -1)
   fi
 fi
